@@ -306,7 +306,14 @@ def run_generate(cli, etas, sizes, prob, bias, code_class, deformation_name, lab
     return files
 
 
-def expected_simulations(etas, sizes, prob, bias, code_class='Toric2DCode'):
+def expected_simulations(etas, sizes, prob, bias, code_class='Toric2DCode', deformation_name=False):
+    base = _expected_simulations(etas, sizes, prob, bias, code_class)
+    if deformation_name is False:
+        return base
+    return sorted((t + (deformation_name,) for t in base), key=str)
+
+
+def _expected_simulations(etas, sizes, prob, bias, code_class='Toric2DCode'):
     import panqec.cli as cli
     import panqec.utils as ut
     rates = cli.read_range_input(prob)
@@ -324,7 +331,7 @@ def expected_simulations(etas, sizes, prob, bias, code_class='Toric2DCode'):
     return sorted(out)
 
 
-def simulations_on_disk(files):
+def simulations_on_disk(files, with_deformation=False):
     from panqec.simulation import read_input_dict
     out = []
     for name, text in files.items():
@@ -334,8 +341,11 @@ def simulations_on_disk(files):
             c = sim.code
             size = tuple(c.size)
             d = sim.error_model.direction
-            out.append((size, tuple(d), sim.error_rate))
-    return sorted(out)
+            t = (size, tuple(d), sim.error_rate)
+            if with_deformation:
+                t += (sim.error_model.params.get('deformation_name'),)
+            out.append(t)
+    return sorted(out, key=str) if with_deformation else sorted(out)
 
 
 def w_files(cfg, tier):
@@ -385,7 +395,59 @@ def w_files(cfg, tier):
     return col.result()
 
 
+DEFORMATIONS = [None, 'XZZX', 'XY']
+
+
+def history_mismatch(cli, bias, first, second, sizes='2x2,3x2', prob='0.1'):
+    """Two invocations of generate-input in ONE process; returns what is wrong with either's files."""
+    out = []
+    for tag, (eta, dname) in (('first', first), ('second', second)):
+        files = run_generate(cli, [eta], sizes, prob, bias, 'Toric2DCode', dname, None)
+        got = simulations_on_disk(files, with_deformation=True)
+        want = expected_simulations([eta], sizes, prob, bias, 'Toric2DCode', deformation_name=dname)
+        if got != want:
+            out.append(f'{tag} invocation (eta={eta}, deformation={dname}): read back {got[:2]}..., requested {want[:2]}...')
+    return out
+
+
+def w_history(cfg, tier):
+    """cfg = 'history bias=<B>': two generate-input invocations in one process -- (bias ratio, noise deformation)
+    of each chosen by the solver (realised); each history runs in a forked child of its own.  Both invocations'
+    files must read back as exactly their own request (sizes x ratio x rates, direction AND deformation)."""
+    import panqec.cli as cli
+    bias = dict(p.split('=') for p in cfg.split()[1:])['bias']
+    col = hz.Collector(cfg)
+    col.encoded(cli.generate_input.callback, cli.read_bias_ratios)
+    eng = Engine(name=cfg, max_paths=2000)
+    with eng:
+        ea, eb_ = eng.integer('eta1', 0, len(ETAS) - 1), eng.integer('eta2', 0, len(ETAS) - 1)
+        da, db = eng.integer('def1', 0, len(DEFORMATIONS) - 1), eng.integer('def2', 0, len(DEFORMATIONS) - 1)
+
+        def fn():
+            first, second = (ETAS[int(ea)], DEFORMATIONS[int(da)]), (ETAS[int(eb_)], DEFORMATIONS[int(db)])
+            return first, second, hz.in_forked_child(lambda: history_mismatch(cli, bias, first, second))
+        ps = eng.explore(fn)
+    col.absorb(eng)
+    bad, w = [], [None]
+    for p in ps:
+        if p.exc is not None:
+            bad.append(z3_and(p.pc))
+            w[0] = w[0] or dict(history=True, exception=f'{type(p.exc).__name__}: {p.exc}')
+            continue
+        first, second, mis = p.value
+        bad.append(z3_and(p.pc + [z3.BoolVal(bool(mis))]))
+        if mis and (w[0] is None or 'first' not in w[0]):
+            w[0] = dict(history=True, first=list(first), second=list(second), bias=bias, mismatch=mis[:2])
+    col.prove('C19/generate_input/two-invocations-in-one-process-each-read-back-as-requested', eng.base, z3_or(bad),
+              lambda mo: w[0],
+              f'{len(ps)} realised ordered pairs of invocations ({len(ETAS)} bias ratios x {len(DEFORMATIONS)} noise '
+              'deformations each), one forked process per pair; compared: sizes, direction, rates, deformation name')
+    return col.result()
+
+
 def worker(cfg, tier='quick'):
+    if cfg.startswith('history'):
+        return w_history(cfg, tier)
     return {'range': w_range, 'arange-model': w_arange_model, 'direction': w_direction,
             'files': w_files}[cfg.split()[0]](cfg, tier)
 
@@ -416,6 +478,14 @@ def replay(path):
             key = {'X': 'r_x', 'Y': 'r_y', 'Z': 'r_z'}[pauli]
             want = 1.0 if eta == np.inf else eta / (1 + eta)
             bad = abs(sum(dd.values()) - 1) > 1e-12 or abs(dd[key] - want) > 1e-12
+        elif cfg.startswith('history'):
+            if 'first' in w:
+                mis = history_mismatch(cli, w['bias'], tuple(w['first']), tuple(w['second']))
+                print('first', w['first'], 'second', w['second'], '->', mis)
+                bad = bool(mis)
+            else:
+                res = worker(cfg)
+                bad = any(o['oid'] == oid and o['verdict'] == 'sat' for o in res['obs'])
         elif cfg.startswith('files'):
             files = run_generate(cli, w['etas'], w['sizes'], w['prob'], w['bias'], w.get('code', 'Toric2DCode'), None, None)
             print('files written:', sorted(files))
@@ -439,6 +509,7 @@ def configs(tier):
                [(k, j, c, r) for k in (1, 2) for j in (0, 1, 4) for c, r in ((2, 1), (5, 2), (5, 4))]
     out += [f'range k={k} j={j} c={c} r={r}' for k, j, c, r in grid]
     out += [f'direction bias={b}' for b in 'XYZ']
+    out += ['history bias=Z'] + (['history bias=X', 'history bias=Y'] if tier != 'quick' else [])
     out += ['files len=1 bias=Z', 'files len=2 bias=Z', 'files len=1 bias=X sizes=2x3,3x2,4 prob=0.1:0.3:0.1',
             'files len=1 bias=Y sizes=2x3x4,3x2x2,2 code=Toric3DCode prob=0.05'] + \
         (['files len=3 bias=X', 'files len=2 bias=Y', 'files len=2 bias=Z sizes=3x2x4,2x2x3 code=Planar3DCode'] if tier != 'quick' else [])
